@@ -60,26 +60,26 @@ func checkC17(c *Ctx) {
 			switch {
 			case ev.Kind == pw.EvCall && ev.CalleeVal != nil && ev.Callee == nil:
 				cbCalls = append(cbCalls, i)
-			case ev.Kind == pw.EvFieldWrite && ev.Field != nil && ev.Field.Name() == "lastRun":
+			case ev.Kind == pw.EvFieldWrite && ev.Field != nil && fname(ev.Field) == "lastRun":
 				lastRunWrite = i
 				nowForLastRun = ev.Value
 				if !held(i) {
 					r.Bad("R17.1", name, "lastRun-write-unlocked", c.Pos(ev.Pos), "lastRun is written without the mutex", shortTrace(p))
 				}
-			case ev.Kind == pw.EvFieldWrite && ev.Field != nil && ev.Field.Name() == "SkipInterval":
+			case ev.Kind == pw.EvFieldWrite && ev.Field != nil && fname(ev.Field) == "SkipInterval":
 				if !held(i) {
 					r.Bad("R17.1", name, "SkipInterval-write-unlocked", c.Pos(ev.Pos), "SkipInterval is defaulted without the mutex: concurrent Invalidate calls race on it", shortTrace(p))
 				}
-			case ev.Kind == pw.EvFieldRead && ev.Field != nil && (ev.Field.Name() == "lastRun" || ev.Field.Name() == "SkipInterval"):
-				if ev.Field.Name() == "SkipInterval" {
+			case ev.Kind == pw.EvFieldRead && ev.Field != nil && (fname(ev.Field) == "lastRun" || fname(ev.Field) == "SkipInterval"):
+				if fname(ev.Field) == "SkipInterval" {
 					skip = ev.Value
 				}
 				if !held(i) {
-					r.Bad("R17.1", name, ev.Field.Name()+"-read-unlocked", c.Pos(ev.Pos), ev.Field.Name()+" is read without the mutex", shortTrace(p))
+					r.Bad("R17.1", name, fname(ev.Field)+"-read-unlocked", c.Pos(ev.Pos), fname(ev.Field)+" is read without the mutex", shortTrace(p))
 				}
 			case ev.Kind == pw.EvCall && ev.Role == "Std:time.Since":
 				since = ev.Results[0]
-				if len(ev.Args) != 1 || ev.Args[0].Field == nil || ev.Args[0].Field.Name() != "lastRun" {
+				if len(ev.Args) != 1 || ev.Args[0].Field == nil || fname(ev.Args[0].Field) != "lastRun" {
 					since = nil
 				}
 			}
@@ -104,7 +104,7 @@ func checkC17(c *Ctx) {
 		}
 		var cbField *pw.Val
 		for _, ev := range p.Events {
-			if ev.Kind == pw.EvFieldRead && ev.Field != nil && ev.Field.Name() == "Callbacks" && cbField == nil {
+			if ev.Kind == pw.EvFieldRead && ev.Field != nil && fname(ev.Field) == "Callbacks" && cbField == nil {
 				cbField = ev.Value
 			}
 		}
@@ -157,7 +157,7 @@ func checkC17(c *Ctx) {
 					underLock := false
 					for j := i - 1; j >= 0; j-- {
 						e2 := p.Events[j]
-						if e2.Kind == pw.EvFieldRead && e2.Field != nil && e2.Field.Name() == "Callbacks" {
+						if e2.Kind == pw.EvFieldRead && e2.Field != nil && fname(e2.Field) == "Callbacks" {
 							underLock = held(j)
 							break
 						}
@@ -325,7 +325,7 @@ func checkC17(c *Ctx) {
 // fromCallbacks: v is the Callbacks field or a copy of it (append/slice).
 func fromCallbacks(v *pw.Val) bool {
 	for i := 0; v != nil && i < 5; i++ {
-		if v.Field != nil && v.Field.Name() == "Callbacks" {
+		if v.Field != nil && fname(v.Field) == "Callbacks" {
 			return true
 		}
 		switch v.Kind {
